@@ -287,8 +287,9 @@ func (s *source) BlockByNumber(ctx context.Context, n uint64) (junosync.Committe
 		return junosync.CommittedBlock{}, err
 	}
 	if holdUntil > 0 {
-		deadline := time.Now().Add(3 * time.Second)
-		for time.Now().Before(deadline) && ctx.Err() == nil {
+		startHeartbeat()
+		deadline := beats.Load() + 300 // 3 s of a healthy process (heartbeats, not wall clock)
+		for beats.Load() < deadline && ctx.Err() == nil {
 			s.rec.mu.Lock()
 			n := s.rec.stores
 			s.rec.mu.Unlock()
